@@ -150,6 +150,53 @@ static void op_utf8(const char* hex) {
   free_exact(xb);
 }
 
+
+/* UTF8ITEM <hex>: the same bytes attached to / decoded into a definite text string through every entry point;
+   per path: reported code point count, byte length, bytes preserved.  Paths: build_stringn, set_handle,
+   cbor_load, cbor_copy of the loaded item, build_string (only when the bytes contain no NUL) */
+static void item_report(const char* tag, cbor_item_t* it, const unsigned char* b, size_t n) {
+  if (!it) { printf("%s=NULL ", tag); return; }
+  size_t len = cbor_string_length(it);
+  int same = (len == n) && (n == 0 || memcmp(cbor_string_handle(it), b, n) == 0);
+  printf("%s=%zu/%zu/%d ", tag, cbor_string_codepoint_count(it), len, same);
+}
+void op_utf8item(const char* hex) {
+  struct xbuf xb = hex_to_exact(hex); size_t n = xb.n; unsigned char* b = xb.p;
+  cbor_item_t* a = cbor_build_stringn((const char*)b, n);
+  item_report("stringn", a, b, n);
+  cbor_item_t* s = cbor_new_definite_string();
+  if (s) {
+    extern _cbor_malloc_t _cbor_malloc;     /* set_handle takes ownership; released through the installed free */
+    unsigned char* h = _cbor_malloc(n ? n : 1);
+    if (n) memcpy(h, b, n);
+    cbor_string_set_handle(s, h, n);
+  }
+  item_report("handle", s, b, n);
+  /* encoded: shortest head */
+  unsigned char head[9]; size_t hl = cbor_encode_string_start(n, head, 9);
+  struct xbuf enc; enc.base = malloc(hl + n + 1); enc.p = enc.base; enc.n = hl + n;
+  memcpy(enc.p, head, hl); if (n) memcpy(enc.p + hl, b, n);
+  struct xbuf ex = exact_copy(enc.p, enc.n); free(enc.base);
+  struct cbor_load_result lr; cbor_item_t* l = cbor_load(ex.p, ex.n, &lr);
+  free_exact(ex);
+  item_report("load", l, b, n);
+  cbor_item_t* c = l ? cbor_copy(l) : NULL;
+  item_report("copy", c, b, n);
+  if (n == 0 || memchr(b, 0, n) == NULL) {
+    char* z = malloc(n + 1); if (n) memcpy(z, b, n); z[n] = 0;
+    cbor_item_t* bs = cbor_build_string(z);
+    item_report("string", bs, b, n);
+    if (bs) cbor_decref(&bs);
+    free(z);
+  } else printf("string=skip ");
+  if (a) cbor_decref(&a);
+  if (s) cbor_decref(&s);
+  if (l) cbor_decref(&l);
+  if (c) cbor_decref(&c);
+  printf("\n");
+  free_exact(xb);
+}
+
 /* UTF8ALL <len> <prefix-hex>: every byte string of length len starting with the prefix, in lexicographic
    order; prints FNV-1a digest of (count,status) pairs, number of strings, number valid, sum of counts */
 static void op_utf8all(size_t len, const char* prefhex) {
